@@ -382,7 +382,8 @@ def diff_results(rW, rR):
 
 
 def classify(aspects, rW, rR, newdirs, reports_w=(), reports_r=(), exists=lambda p: False,
-             old_edits=frozenset(), recent_edits=frozenset(), created=frozenset(), ever_watched=frozenset()) -> str:
+             old_edits=frozenset(), recent_edits=frozenset(), created=frozenset(), ever_watched=frozenset(),
+             moved_dirs=frozenset(), exists_any=lambda p: True) -> str:
     if rW.status != "done" and rR.status == "done":
         err = rW.error or ""
         if "Unexpected file hash update" in err:
@@ -398,6 +399,10 @@ def classify(aspects, rW, rR, newdirs, reports_w=(), reports_r=(), exists=lambda
         for d in newdirs:
             if p.rstrip("/") == d or p.startswith(d + "/"):
                 return "watch-new-directory-unreported"
+    if any(any(p.startswith(d + "/") for d in moved_dirs) and not exists_any(p) for p in upd_w - upd_r):
+        # the watcher's last item about a path is an UPDATE although the path is gone: a write inside a
+        # directory that had just been renamed, reported by inotify through the old watch, under the old path
+        return "watch-update-under-moved-directory"
     if any(p in created and os.path.dirname(p) not in newdirs and os.path.dirname(p) not in ever_watched
            for p in upd_r - upd_w):
         # a file CREATED in this round in a directory that existed before and that the director never
@@ -538,7 +543,9 @@ def run_pair(ctx, project, kw, rounds_fn, seed, where, applied_log=None):
                                lambda p: os.path.isdir(os.path.join(simR.root, p)),
                                edited_paths(history[:since]), edited_paths(history[since:]),
                                frozenset(p for h in history[since:] for p in h.get("created", [])),
-                               frozenset(ever_watched))
+                               frozenset(ever_watched),
+                               frozenset(e[1] for h in history[since:] for e in h.get("edits", []) if e[0] == "move"),
+                               lambda p: os.path.exists(os.path.join(simR.root, p)))
                 what = (f"after edits {label}: watch rebuild and restart differ in {'+'.join(aspects)} "
                         f"(watch: {rW.status} {rW.returncode!r} ran {rW.commands}; restart: {rR.status} "
                         f"{rR.returncode!r} ran {rR.commands})")
